@@ -32,6 +32,24 @@ pub fn looks_like_scheme(bytes: &[u8]) -> bool {
 	false
 }
 
+/// Checks if the first segment of the given path contains a `:`.
+///
+/// Such a path cannot start a relative reference that has no scheme: the
+/// result would either be invalid (`:a`, `1:a`, `%41:a`) or its beginning
+/// would be mistaken for a scheme (`a:b`). It must be prefixed with `./`.
+#[inline]
+pub fn first_segment_has_colon(bytes: &[u8]) -> bool {
+	for &b in bytes {
+		match b {
+			b':' => return true,
+			b'/' | b'?' | b'#' => return false,
+			_ => (),
+		}
+	}
+
+	false
+}
+
 #[derive(Debug, PartialEq, Eq)]
 pub enum SchemeAuthorityOrPath {
 	Scheme,
